@@ -94,10 +94,6 @@ class WrapperModel:
                     out.extend(self.assume(v, s, truth))
                 prefix = [s2 for s in prefix for s2 in self.assume(v, s, not truth)]
             return list(dict.fromkeys(out))
-        if t == "cleanup":
-            if st.cleanup is None:
-                return [st._replace(cleanup=truth)]
-            return [st] if st.cleanup == truth else []
         if t in params:
             return [st] if params[t] == truth else []
         return [st]
@@ -125,9 +121,16 @@ class WrapperModel:
         if a == "PAUSE":
             return [st._replace(pause=min(st.pause + 1, 2))]
         s = node.stmt
-        if node.kind == "stmt" and isinstance(s, ast.Assign) and len(s.targets) == 1 and isinstance(s.targets[0], ast.Name) and s.targets[0].id == "cleanup" \
-                and isinstance(s.value, ast.Constant):
-            return [st._replace(cleanup=bool(s.value.value))]
+        # any local flag assigned True / False is tracked exactly (the "run the cleanup" flag, whatever it is called and whichever
+        # polarity it has); a flag assigned anything else becomes unknown
+        if node.kind == "stmt" and isinstance(s, ast.Assign) and len(s.targets) == 1 and isinstance(s.targets[0], ast.Name):
+            name = s.targets[0].id
+            p = {k: v for k, v in st.params if k != name}
+            if isinstance(s.value, ast.Constant) and isinstance(s.value.value, bool):
+                p[name] = s.value.value
+                return [st._replace(params=frozenset(p.items()))]
+            if name in dict(st.params) and name not in self.bool_params:
+                return [st._replace(params=frozenset(p.items()))]
         return [st]
 
     def run(self):
